@@ -6,6 +6,8 @@ import S4V.Model.Wire
 import S4V.Model.Path
 import S4V.Model.Lines
 import S4V.Model.Coord
+import S4V.Model.Time
+import S4V.Model.Syslines
 
 open S4V.Model S4V.Model.Wire
 
@@ -105,12 +107,47 @@ def stepCoord : List String → String
           s!"ok printed={s.printed.length} merged={merged} fin={s.fin} broke={s.broke}"
   | _ => "bad-op"
 
+def optT (s : String) : Option (Option Int) := if s = "n" then some none else (parseInt? s).map some
+
+def syslOp (ls : List Syslines.LineInfo) (gz : Bool) (op : String) : String :=
+  let kind := (op.take 1).toString
+  let rest := (op.drop 1).toString
+  if kind = "s" then
+    match rest.toNat? with
+    | some fo => (Syslines.findSysline ls fo).toString
+    | none => "bad-op"
+  else if kind = "b" then
+    match rest.splitOn ":" with
+    | [fo, a] => match fo.toNat?, optT a with
+      | some fo, some a =>
+        (if gz then Syslines.lsearch ls a (ls.length + 2) fo else Syslines.bsearch ls fo a).toString
+      | _, _ => "bad-op"
+    | _ => "bad-op"
+  else if kind = "w" then
+    match rest.splitOn ":" with
+    | [a, b] => match optT a, optT b with
+      | some a, some b =>
+        "msgs " ++ String.intercalate "," ((Syslines.streamAll ls gz a b).map fun m => s!"{m.beg}-{m.fin}-{m.dt}")
+      | _, _ => "bad-op"
+    | _ => "bad-op"
+  else "bad-op"
+
+def stepSysl : List String → String
+  | _bs :: kind :: h :: ops =>
+    match unhex h with
+    | some d =>
+      let ls := Syslines.linesFrom Time.parseHead d
+      String.intercalate ";" (ops.map (syslOp ls (kind = "gz")))
+    | none => "bad-op"
+  | _ => "bad-op"
+
 def step (line : String) : String :=
   match words line with
   | "path" :: rest => stepPath rest
   | "line" :: rest => stepLine rest
   | "blk" :: rest => stepBlk rest
   | "coord" :: rest => stepCoord rest
+  | "sysl" :: rest => stepSysl rest
   | _ => "bad-op"
 
 partial def loop (h : IO.FS.Stream) (out : IO.FS.Stream) : IO Unit := do
